@@ -116,3 +116,17 @@ Proof. reflexivity. Qed.
 (** the recursive route on the same input agrees here (single word: no recursion) *)
 Example C07_cfg_instance : kernel_left_cfg 0 0 kA = kernel_left_model 0 kA.
 Proof. reflexivity. Qed.
+
+(** ** closed form for the library's own PLUQ route (block-recursive PLE with any cutoff): no hypothesis left *)
+From M4 Require Import Alg.SolveClosed.
+Theorem C07_kernel_cfg : forall ple_cutoff cutoff A, wf A ->
+  match kernel_left_cfg ple_cutoff cutoff A with
+  | Some None => rank A = nc A
+  | Some (Some K) =>
+      rank A < nc A /\ wf K /\ nr K = nc A /\ nc K = nc A - rank A /\
+      mmul A K = mzero (nr A) (nc K) /\
+      (forall c, bounded (nc K) c -> mul_row c (rows (mtrans K)) = 0%N -> c = 0%N)
+  | None => False
+  end.
+Proof. exact kernel_cfg. Qed.
+Print Assumptions C07_kernel_cfg.
